@@ -940,6 +940,56 @@ def m4_mixed_tolerances(ctx, env, n_cases):
                                "n_times": tg.size, "err_per_component": err_i, "requested_scale": req, "ratio": ratio})
 
 
+# ======================================================================================= M4d restricted domain
+def m4_restricted_domain(ctx, env, n_cases):
+    """A vector field that is smooth on a domain containing the solution and NaN outside it (logarithm of a negative number), with
+    two time scales so that the controller's first trial step — sized by the slow, large component — carries the small, fast
+    component out of the domain: x0' = -a x0, x1' = -b x1 log(x1/c) (closed form).  A trial step with non-finite stages must be
+    rejected and retried with a smaller step; the returned states must be finite and within the requested tolerance."""
+    from hiten.algorithms.integrators.rk import AdaptiveRK
+    rng = ctx.rng
+    dim = 26                       # same augmented dimension as the M4c problems: no further kernel specialisation
+    for it in range(n_cases):
+        if not ctx.mine(it):
+            continue
+        a = 10.0 ** float(rng.uniform(-4, -2.5))
+        b = float(rng.uniform(2.0, 8.0))
+        c = 10.0 ** float(rng.uniform(-6, -5))
+        x1 = c * 10.0 ** float(rng.uniform(0.7, 1.3))
+        tol = 10.0 ** float(rng.uniform(-11, -7))
+        T = float(rng.uniform(1.0, 3.0))
+        tg = np.linspace(0.0, T, int(rng.choice([2, 31, 301])))
+        y0 = ef.logdecay_state(1.0, x1, a, b, c, dim)
+        ref_ = ef.logdecay_exact(1.0, x1, a, b, c, tg)
+        # model evidence that the hostile path is driven: an explicit Euler trial of the length given by the standard initial-step
+        # heuristic (0.01 |y0/scale| / |f0/scale|) leaves the domain
+        f0 = ef.universal_rhs(0.0, y0)[:2]
+        sc = tol + tol * np.abs(y0[:2])
+        h0 = 0.01 * np.linalg.norm(y0[:2] / sc) / np.linalg.norm(f0 / sc)
+        if y0[1] + h0 * f0[1] < 0:
+            ctx.count("M4d:trial step of the standard initial-step heuristic leaves the domain (model)")
+        for order in (5, 8):
+            ctx.case(f"M4d:adaptive{order}:restricted_domain", [it, ctx.seed, order, tg.size, tol], nontrivial=True)
+            wit = lambda: {"order": order, "rtol=atol": tol, "a": a, "b": b, "c": c, "x0": [1.0, x1], "T": T, "n_times": tg.size}
+            try:
+                sol = AdaptiveRK(order=order, rtol=tol, atol=tol).integrate(env.system(dim), y0.copy(), tg.copy())
+            except (RuntimeError, ValueError, FloatingPointError) as exc:
+                # declining with an error is not a silently wrong answer; the statement does not forbid it
+                ctx.count("M4d:integrator declined the restricted-domain problem with an error — accepted")
+                continue
+            st = np.asarray(sol.states)[:, :2]
+            finite = bool(np.all(np.isfinite(st)))
+            ctx.check(finite, "M4d:states returned for a field with a restricted domain are finite (non-finite trial stages are rejected, not accepted)",
+                      lambda: {**wit(), "first_nonfinite_row": int(np.argmax(~np.isfinite(st).all(axis=1)))})
+            if not finite:
+                continue
+            err = np.abs(st - ref_).max(axis=0)
+            ratio = float(np.max(err / (tol + tol * np.abs(ref_).max(axis=0))))
+            ctx.stat(f"M4d max_i err_i/(atol + rtol max|y_i|) [adaptive{order}]", ratio)
+            ctx.check(ratio <= K_MIXED, "M4d:error <= K (atol + rtol max|y_i|) on a field with a restricted domain (contracting flow, kappa <= 1)",
+                      lambda: {**wit(), "err": err, "ratio": ratio})
+
+
 # ======================================================================================= M4b time-unit invariance
 def classify_timescale(order, c, ratio_scaled, ratio_base, rk45_scaled, rk45_base):
     """The DOP853 drivers multiply an error estimate that already carries one factor h by |h| once more, so a step is
@@ -1128,6 +1178,7 @@ def run(ctx):
     guarded(ctx, "M4b", m4_timescale, ctx, env, ctx.pick(3, 6 * ctx.nshards), ctx.pick([1e-2, 1e2, 1e4], [1e-4, 1e-2, 1e1, 1e2, 1e3, 1e4, 1e6]),
             ctx.pick([1e-7, 1e-10], [1e-6, 1e-8, 1e-10, 1e-12]))
     guarded(ctx, "M4c", m4_mixed_tolerances, ctx, env, ctx.pick(8, 40 * ctx.nshards))
+    guarded(ctx, "M4d", m4_restricted_domain, ctx, env, ctx.pick(8, 40 * ctx.nshards))
     guarded(ctx, "M5", m5_cr3bp, ctx, ctx.pick(4, 8 * ctx.nshards))
     ctx.note("kernel_calls", dict(env.calls))
 
@@ -1145,5 +1196,7 @@ def run(ctx):
     ctx.require("M4:error shrinks with the tolerance (log-log slope >= 0.3 over >= 4 decades)", 10)
     ctx.require("M4:first sample equals y0 bit for bit", 300)
     ctx.require("M4b:error <= K*tol*kappa for the same problem in every time unit", 40)
+    ctx.require("M4d:states returned for a field with a restricted domain are finite (non-finite trial stages are rejected, not accepted)", 8 if one else 2)
+    ctx.require("M4d:trial step of the standard initial-step heuristic leaves the domain (model)", 4 if one else 1)
     ctx.require("M5:System.propagate(method='fixed', order=p) converges with median rate >= p - 0.5", 2)
     ctx.require("M5:System.propagate(method='adaptive') error <= K*tol*kappa", 6)
